@@ -61,6 +61,12 @@ M = [
             }''', '''            {
                 pattern.positive(svar)
             }'''),
+ ('rs_load_index_masked', 'C05', RS, '''                match &memory[index as usize] {''', '''                match &memory[(index & 0x7f) as usize] {'''),
+ ('rs_cleanmetavar_id_masked', 'C05', RS, '''                let metavar_pat = Rc::new(Pattern::MetaVar {
+                    id,
+                    e_fresh: vec![],''', '''                let metavar_pat = Rc::new(Pattern::MetaVar {
+                    id: id & 0x7f,
+                    e_fresh: vec![],'''),
  # ---------------- serialiser / tracker (C02, C03, C04)
  ('py_instantiate_keys_not_reversed', 'C02 C04', PY + 'serializing_interpreter.py', '''    def instantiate(self, proved: Proved, delta: dict[int, Pattern]) -> Proved:
         ret = super().instantiate(proved, delta)
